@@ -15,7 +15,7 @@ EXPLANATION = (
     'have refused counts as effect-free (induction). The veto of a pre-set validation callback must precede every effect.')
 
 STATE_FIELDS = {'nvalues', 'values', 'flags', 'comment', 'value', 'values[]', 'string', 'section', 'number', 'fpnumber', 'boolean'}
-OPTION_LEVEL = ('nvalues', 'values', 'flags', 'comment')
+OPTION_LEVEL = {'nvalues', 'values', 'flags', 'comment'}
 REFUSERS = ['cfg_opt_getval', 'cfg_opt_setnint', 'cfg_opt_setnfloat', 'cfg_opt_setnbool', 'cfg_opt_setnstr',
             'cfg_setnint', 'cfg_setnfloat', 'cfg_setnbool', 'cfg_setnstr', 'cfg_setint', 'cfg_setfloat', 'cfg_setbool', 'cfg_setstr',
             'cfg_setlist', 'cfg_addlist', 'cfg_opt_setmulti', 'cfg_setmulti', 'cfg_addtsec', 'cfg_opt_rmnsec', 'cfg_rmnsec', 'cfg_opt_rmtsec',
@@ -225,8 +225,17 @@ def run(c, chk):
     chk.rule('R10.3', 'the veto of a pre-set validation callback precedes every effect')
     chk.trusted = ['clang/opt IR', 'MOD summaries are field-name based (over-approximate)']
     chk.assumptions = ['allocation-failure paths belong to C18', 'user callbacks do not modify the option themselves']
+    # what counts as option state: the frozen list, and every other member of the option record that the storing routines write
+    # (a member added later - a capacity, a cache - is state a revert has to put back like the rest)
+    names = set(c.confuse.struct_fields.get('%struct.cfg_opt_t') or ())
+    grown = set()
+    for fname in ('cfg_setopt', 'cfg_addval', 'cfg_opt_getval'):
+        grown |= (c.mod_sets.get(fname) or set()) & names
+    grown -= STATE_FIELDS
+    STATE_FIELDS.update(grown)
+    OPTION_LEVEL.update(grown)
     n = analyse(c, chk, 'R10.1', 'R10.2')
-    chk.analysed = {'refusing_entry_points': len(REFUSERS), 'refusing_paths': n}
+    chk.analysed = {'refusing_entry_points': len(REFUSERS), 'refusing_paths': n, 'state_members_beyond_the_list': sorted(grown)}
     chk.floor('R10.1 refusing paths', n, 40)
     # R10.4: what a revert relies on - the annotation survives the dropping of defaults
     from . import c01
